@@ -243,8 +243,18 @@ def gen_scenario(ctx):
     elif mode == 'stdout':
         args = [rng.choice(paths + (['missing.py'] if rng.random() < 0.1 else []))]
     else:
-        choice = rng.randint(0, 5)
-        if choice == 0:
+        choice = rng.randint(0, 9)
+        if choice == 6:
+            args = [rng.choice(paths), '-']
+        elif choice == 7:
+            args = [rng.choice(paths + dirs), '-', rng.choice(['--in-place', '-i'])]
+            if rng.random() < 0.5:
+                args.insert(0, args.pop())
+        elif choice == 8:
+            args = [rng.choice(paths), rng.choice(paths), '-', '--in-place']
+        elif choice == 9:
+            args = [rng.choice(paths), '-', '--output', 'o.py']
+        elif choice == 0:
             args = ['-', rng.choice(paths)]
         elif choice == 1:
             args = ['-', '--in-place']
@@ -340,6 +350,38 @@ def canon_model(ans):
     return out
 
 
+def invalid_combination(sc):
+    """the documented invalid combinations, read off the argument list alone (and which paths are directories)"""
+    args = list(sc['args'])
+    paths, it = [], iter(args)
+    output = None
+    for a in it:
+        if a in ('--output', '-o'):
+            output = next(it, None)
+        elif a == '-' or not a.startswith('-'):
+            paths.append(a)
+    in_place = '--in-place' in args or '-i' in args
+    dirs = set(os.path.dirname(p) for p in sc['files'])
+    alldirs = set()
+    for d in dirs:
+        while d:
+            alldirs.add(d)
+            d = os.path.dirname(d)
+    if '-' in paths and len(paths) != 1:
+        return 'stdin with other paths'
+    if '-' in paths and in_place:
+        return 'stdin with --in-place'
+    if len(paths) > 1 and not in_place:
+        return 'several paths without --in-place'
+    if len(paths) == 1 and paths[0] in alldirs and not in_place:
+        return 'a directory without --in-place'
+    if in_place and output is not None:
+        return '--in-place with --output'
+    if '--remove-class-attribute-annotations' in args and '--no-remove-annotations' in args:
+        return '--remove-class-attribute-annotations with --no-remove-annotations'
+    return None
+
+
 def check_scenario_oracles(ctx, sc, r, post):
     """Properties C14/C15 evaluated directly on what the real main() did (fake minify)."""
     files, api, force = sc['files'], sc['api'], sc['force']
@@ -362,6 +404,13 @@ def check_scenario_oracles(ctx, sc, r, post):
     for p in post:
         if p not in files and p not in ('out.min.py', 'o.py'):
             viol.append(('C15', 'unexpected new file %s' % p))
+    # C13: an invalid combination is rejected with a non-zero exit before anything is written
+    why = invalid_combination(sc)
+    if why:
+        if r['exit'] == 0:
+            viol.append(('C13', 'invalid combination (%s) exits 0' % why))
+        if any(post.get(p) != files.get(p) for p in set(post) | set(files)) or r['stdout']:
+            viol.append(('C13', 'invalid combination (%s) rejected only after something was written' % why))
     if not force and sc['mode'] in ('stdin', 'stdout'):
         src_len = len(sc['stdin']) if sc['mode'] == 'stdin' else None
         if sc['mode'] == 'stdout':
